@@ -6,7 +6,7 @@ from typing import List, Tuple
 
 from .. import consteval, render, cstruct, sym
 from ..model import AnalysisError, Repo
-from ..report import Run
+from ..report import Run, take_over
 from ..sym import T, const, param
 
 EXPLANATION = (
@@ -365,29 +365,11 @@ def check_optional_keys(repo: Repo, run: Run, interp) -> None:
     run.floor("R7", "(key, dict) pairs whose presence is tested", n_tested, 30)
 
 
-def _take_over(run, mod_name: str, prop: str, repo, select, rule: str, label: str, why: str, floor: int) -> None:
-    """Obligations of another check that are necessary conditions here as well (judged there, reported here too)."""
-    import importlib
-    from ..model import AnalysisError as _AE
-    other = importlib.import_module(f"vstatic.rules.{mod_name}")
-    probe = Run(prop, run.tier, run.repo_root)
-    probe.is_probe = True           # (a check run for its obligations only: it does not take over from others in turn)
-    try:
-        other.check(repo, probe)
-    except _AE:
-        pass            # the floor below fails if the obligations were not reached
-    n = 0
-    for o in probe.obligations:
-        if select(o):
-            n += 1
-            run.ob(rule, o["module"], o["scope"], f"{label} ({prop}/{o['rule']}): {o['construct']}", o["ok"],
-                   (o.get("what", "") + " - " + why) if not o["ok"] else "", nontrivial=False)
-    run.floor(rule, f"{label}: obligations taken over from {prop}", n, floor)
 
 
 def check(repo: Repo, run: Run) -> None:
     if not getattr(run, "is_probe", False):
-        _take_over(run, "c03", "C03", repo, lambda o: o["rule"] == "R6" and "every collected log record is decoded in order" in o["construct"], "R0",
+        take_over(run, "c03", "C03", repo, lambda o: o["rule"] == "R6" and "every collected log record is decoded in order" in o["construct"], "R0",
                    "container side", "the same records parsed out of a version-3 file are then not all yielded: a record lacking "
                    "an optional key is decoded and dropped", 1)
     interp = sym.Interp(repo)
